@@ -180,7 +180,7 @@ func TestC15_Offsets(t *testing.T) {
 				tail = " " + tail
 			}
 		}
-		c := OffsetCase{Input: head + tail, Kind: kind, BadPos: badPos}
+		c := OffsetCase{Input: head + tail + drawSpaces(rt, "trailingBlanks", 0, 3), Kind: kind, BadPos: badPos}
 		out := checkC15(c)
 		classes := []string{"kind-" + kind}
 		if rewrites > 0 {
@@ -200,6 +200,77 @@ func TestC15_Offsets(t *testing.T) {
 		rec.Case(rewrites+folds > 0, c.Input, c.Input, classes...)
 		if !out.OK {
 			rec.Fail(rt, "c15-offset", out.Key, out.Msg, c)
+		}
+	})
+}
+
+// AnyErrCase: any (mostly invalid) input; whatever error text comes back, if it cites an offset and
+// a quoted lexeme they must be true of the argument.
+type AnyErrCase struct {
+	S StrCase `json:"s"`
+}
+
+func init() { registerReplay("c15-any-error", checkC15Any) }
+
+func checkC15Any(c AnyErrCase) Outcome {
+	in := c.S.S()
+	msgs := map[string]string{}
+	if r := Extract(in); r.IsErr {
+		msgs["ExtractLicenses(input)"] = r.Err
+	}
+	if r := Satisfies(in, []string{"MIT"}); r.IsErr {
+		msgs["Satisfies(input, {MIT})"] = r.Err
+	}
+	if r := Satisfies("MIT", []string{in}); r.IsErr {
+		msgs["Satisfies(MIT, {input})"] = r.Err
+	}
+	for call, msg := range msgs {
+		m := reOffset.FindStringSubmatch(msg)
+		if m == nil {
+			continue // this error cites no location: nothing to contradict
+		}
+		k, _ := strconv.Atoi(m[1])
+		if k < 0 || k > len(in) {
+			return fail("C15/any/"+shortKey(in), "%s with input %s returned error %q: offset %d lies outside the %d-byte argument", call, shortKey(in), msg, k, len(in))
+		}
+		if !strings.Contains(msg, "license") && !strings.Contains(msg, "expected id") {
+			continue // e.g. "unexpected 'x' at offset k": a character, checked next
+		}
+		if q := reQuoted.FindStringSubmatch(msg); q != nil {
+			lex := q[1] + q[2] + q[3]
+			if lex == "" || k+len(lex) > len(in) || in[k:k+len(lex)] != lex {
+				return fail("C15/any/"+shortKey(in), "%s with input %s returned error %q: the cited lexeme %q is not at offset %d of the argument (there: %q)", call, shortKey(in), msg, lex, k, in[k:min(len(in), k+len(lex))])
+			}
+		}
+	}
+	return pass()
+}
+
+// TestC15_AnyError: the C04/C05 input mix; every error text that cites an offset and a lexeme is held
+// to it, whatever kind of error the library considers it to be.
+func TestC15_AnyError(t *testing.T) {
+	rec := NewRecorder("C15", "any-error", "strings from the C04 input mix (valid trees, token sequences incl. open spellings and exception ids in license position in any letter case, single edits, raw bytes) through Satisfies (both positions) and ExtractLicenses; oracle: whenever an error text cites 'offset <k>' the offset lies within the argument, and when it also cites a quoted identifier that identifier is found at exactly that offset (byte for byte); non-trivial = an error citing an offset was returned; distinct by input")
+	defer rec.Finish(t)
+	tb := Tbl()
+	rec.Rapid(t, func(rt *rapid.T) {
+		var s string
+		if rapid.IntRange(0, 3).Draw(rt, "excAsLicense") == 0 {
+			// an exception id where a license is expected, re-cased, after a generated clean prefix
+			prefix, _, _ := drawCleanPrefix(rt, tb)
+			exc := recase(rapid.SampledFrom(tb.Exceptions).Draw(rt, "exc"), drawCase(rt, "excCase")+1)
+			s = RenderToks(append(prefix, Tok{kEXC, exc}), DrawSpacer(rt)) + drawSpaces(rt, "trail", 0, 3)
+		} else {
+			s = drawEntry(rt, "e", false).S.S() + drawSpaces(rt, "trail", 0, 3)
+		}
+		c := AnyErrCase{S: mkStr(s)}
+		out := checkC15Any(c)
+		cites := false
+		if r := Extract(s); r.IsErr && reOffset.MatchString(r.Err) {
+			cites = true
+		}
+		rec.Case(cites, s, mkStr(s).Text)
+		if !out.OK {
+			rec.Fail(rt, "c15-any-error", out.Key, out.Msg, c)
 		}
 	})
 }
